@@ -158,7 +158,132 @@ def replay_lettermap(ns, ob, model):
     return got != table, dict(call="DNARegex(%r).search(Seq(x)) for x in ACGT" % letter, expected=table, observed=got)
 
 
+def replay_contains(ns, ob, model):
+    """circular membership: the query occurs in some rotation and is no longer than the record"""
+    from Bio.Seq import Seq
+    table = {}
+    pool = list(DNA) + list("RYKMSWBDHVN")
+
+    def conv(t):
+        out = []
+        for ch in t:
+            if ch not in table:
+                table[ch] = pool[len(table) % len(pool)]
+            out.append(table[ch])
+        return "".join(out)
+
+    seq, q = conv(model["seq"]), conv(model["char"])
+    if not seq:
+        return None, "empty record in the model"
+    rec = ns["moclo.record"].CircularRecord(Seq(seq), id="r")
+    expected = len(q) <= len(seq) and q in seq + seq
+    try:
+        got = q in rec
+    except Exception as e:
+        got = "raised %r" % (e,)
+    return got != expected, dict(call="%r in CircularRecord(Seq(%r))" % (q, seq), expected=expected, observed=got)
+
+
+def replay_search(ns, ob, model):
+    """leftmost matching start in the requested range, one-turn window; the model's transcribed pattern is not a DNA
+    pattern (re is uninterpreted), so the neighbourhood is searched: short patterns over the model's text length"""
+    import itertools
+    import re as _re
+    from Bio.Seq import Seq
+    DNARegex = ns["moclo.regex"].DNARegex
+    n = max(1, min(len(model.get("text", "A")), 6))
+    linear = bool(model.get("linear", True))
+    variant = ob.meta.get("variant", "Seq")
+    pats = ["A", "AC", "A(N)", "(N)C", "AN*C", "(A)(N*)(C)", "NNN", "CA"]
+    poss = sorted({0, 1, max(0, n - 1), model.get("pos", 0) if isinstance(model.get("pos"), int) else 0})
+    ends = sorted({n, n + 5, max(0, n - 1), 1, model.get("endpos", n) if isinstance(model.get("endpos"), int) else n})
+    for text in ("".join(t) for t in itertools.product("AC", repeat=n)):
+        for pat in pats:
+            rx = DNARegex(pat)
+            core = _re.compile(rx.regex.pattern, _re.I) if hasattr(rx, "regex") else None
+            if core is None:
+                return None, "DNARegex has no .regex attribute any more"
+            for pos in poss:
+                for endpos in ends:
+                    for lin in ((linear,) if variant != "CircularRecord" else (True, False)):
+                        target = mk_target(ns, variant, text)
+                        circ = (not lin) or variant == "CircularRecord"
+                        data = text * 2 if circ else text
+                        exp = None
+                        for i in range(max(pos, 0), min(n, endpos)):
+                            m = core.match(data, i, i + n)
+                            if m is not None:
+                                exp = (i, m.end())
+                                break
+                        try:
+                            got = rx.search(target, pos, endpos, lin)
+                            obs = None if got is None else (got.start(), got.end())
+                        except Exception as e:
+                            obs = "raised %r" % (e,)
+                        if obs != exp:
+                            return True, dict(call="DNARegex(%r).search(%s(%r), pos=%d, endpos=%d, linear=%r)" % (
+                                pat, variant, text, pos, endpos, lin), expected=exp, observed=obs,
+                                note="found in the neighbourhood of the counter-model", model=model)
+    return False, dict(note="no failing input in the neighbourhood (texts over AC of length %d)" % n, model=model)
+
+
+def replay_assembly_init(ns, ob, model):
+    """AssemblyManager(vector, modules): InvalidSequence exactly when the vector's two overhangs coincide; the model
+    interprets rc as an uninterpreted function, so every pair over {X, rc X, palindrome, Y} is tried"""
+    import random
+    from Bio.Seq import Seq
+    from Bio.Restriction import BsaI
+    from bounded import assembly as ba
+    core = ns["moclo.core"]
+    errors = ns["moclo.errors"]
+    CircularRecord = ns["moclo.record"].CircularRecord
+    mod = __import__("moclo.core._assembly", fromlist=["AssemblyManager"])
+    V = type("V", (core.AbstractVector,), dict(cutter=BsaI))
+    rng = random.Random(7)
+    alphabet = ["AACG", "CGTT", "ACGT", "GGTA", "aacg"]
+    for vs in alphabet:
+        for ve in alphabet:
+            s, _ = ba.build_vector(BsaI, vs, ve, rng)
+            if s is None:
+                continue
+            vec = V(CircularRecord(Seq(s), id="v"))
+            try:
+                mod.AssemblyManager(vec, [])
+                got = "constructed"
+            except errors.InvalidSequence:
+                got = "InvalidSequence"
+            except Exception as e:
+                got = "raised %r" % (e,)
+            exp = "InvalidSequence" if vs.upper() == ve.upper() else "constructed"
+            if got != exp:
+                return True, dict(call="AssemblyManager(vector with overhang_start=%s, overhang_end=%s, [])" % (vs, ve),
+                                  expected=exp, observed=got, note="found in the neighbourhood of the counter-model",
+                                  model=model)
+    return False, dict(note="no failing overhang pair over %r" % alphabet, model=model)
+
+
+def replay_get_regex(ns, ob, model):
+    """an ancestor whose pattern is cached, then the subclass (fresh throw-away classes: the kit classes keep their state)"""
+    from Bio.Restriction import BsaI
+    core = ns["moclo.core"]
+    Parent = type("Parent", (core.Entry,), dict(cutter=BsaI))
+    Child = type("Child", (Parent,), dict(structure=classmethod(lambda cls: "GGTCTCN(ATGC)(NN*N)(TTAA)NGAGACC")))
+    out = dict(history="Parent._get_regex(); Child._get_regex()")
+    try:
+        out["parent_pattern"] = Parent._get_regex().pattern
+        out["observed"] = Child._get_regex().pattern
+    except Exception as e:
+        out["observed"] = "raised %r" % (e,)
+    out["expected"] = Child.structure()
+    out["model"] = model
+    return out["observed"] != out["expected"], out
+
+
 REPLAY = {
+    "CircularRecord.__contains__": replay_contains,
+    "DNARegex.search": replay_search,
+    "AssemblyManager.__init__": replay_assembly_init,
+    "StructuredRecord._get_regex": replay_get_regex,
     "DNARegex._lettermap": replay_lettermap,
     "SeqMatch.group": replay_group,
     "CircularRecord.__rshift__": replay_rshift,
